@@ -6,7 +6,10 @@ Scenario = flat list of ops.  op ::= :M <scope>            select the mock suppo
                                    | :A.<field> args        entry of MockActualCall_c on the actual call returned last
 args are generic: numbers ([-]hex; integers, double bit patterns, pointer bits) and byte strings ($hex; names, strings, buffers,
 8-byte objects; ~ = NULL), in the order of the C signature, with `size` arguments implied by the length of the preceding buffer
-and output buffers (16 bytes, pre-filled with 0xEE) supplied by the harness.
+and output buffers (16 bytes, pre-filled with 0xEE) supplied by the harness.  A comparator / copier function is a number: its index in
+the harness's pool (harness/C19_shared.h: 2 equality functions, 3 to-string functions, 2 copiers), so
+  :S.installComparator <type name> <equality 0..1> <to-string 0..2>        :S.installCopier <type name> <copier 0..1>
+and several type names can share some of their functions and differ in others.
 
 Observation = ":c <half> :x <half>": the scenario through the C interface and through the C++ interface.
 half ::= <failures> <op at which the test was left | ~> <failure text | ~> <n> (<op> :<T.field> :<kind> <payload>)^n <k> (<op> <16 bytes>)^k
@@ -27,12 +30,20 @@ RULE = ("every scenario is executed through mock_c()/mock_scope_c() from a C tra
         "(plain, of type with copier, unmodified), custom comparators, missing comparator/copier; (4) strictOrder, expectNCalls, "
         "expectNoCall, ignoreOtherCalls, ignoreOtherParameters, enable/disable, expectedCallsLeft, checkExpectations, clear, "
         "crashOnFailure(0); (5) interleavings of scopes with readers after the support was switched; (6) random op sequences over the "
-        "whole grammar. non-trivial = the scenario makes an actual call or reads a value back")
+        "whole grammar; (7) several custom types (T1, T2, T3) whose comparator / copier functions are drawn from a pool of 2 equality x "
+        "3 to-string x 2 copier functions WITH SHARING: every pair of (equality, to-string) assignments for two types (36) in both install "
+        "orders, one generic equality with a text per type, one text with an equality per type, the same functions under two names, one "
+        "copier for all / one per type, re-installation of a type with other functions, removeAll followed by a different assignment, "
+        "install through a scope; then one call with an input (and output) parameter per type that passes, or deviates in ONE type "
+        "(objects chosen so that exactly one of the two equality functions tells them apart -> verdict; the failure text prints the "
+        "value with that type's to-string; the output bytes show the copier), or lacks a parameter (the expectation is printed). "
+        "non-trivial = the scenario makes an actual call or reads a value back")
 ASSUMPTIONS = [
     "LP64; every argument is in range of the C type of its parameter (a C caller cannot pass anything else)",
     "valid scenarios only: the first op selects a support; :E ops only while the expected call returned last is alive (no clear since), "
     ":A ops only while the actual call returned last is alive (no clear since); names and string values are non-NULL (string defaults "
-    "may be NULL); objects are 8 bytes, output values at most 16 bytes; crashOnFailure only with 0; "
+    "may be NULL); objects are 8 bytes, output values at most 16 bytes; crashOnFailure only with 0; comparator / copier functions are "
+    "those of the harness's pool (index in range); "
     "removeAllComparatorsAndCopiers only while no expectation or call holds a custom-type value (the C adaptor objects are owned and "
     "freed by the C layer, the C++ ones by the user)",
     "bool is an int in C: every int v stands for the bool (v != 0) and a returned int r is read as (r != 0)",
@@ -202,9 +213,9 @@ def fam_outputs(rng, out, tier):
         ops = [M(sc)]
         inst_cmp, inst_cpy = rng.random() < 0.8, rng.random() < 0.8
         if inst_cmp:
-            ops.append(op("S", "installComparator", b"T1"))
+            ops.append(op("S", "installComparator", b"T1", rng.choice([0, 0, 1]), rng.randrange(3)))
         if inst_cpy:
-            ops.append(op("S", "installCopier", b"T1"))
+            ops.append(op("S", "installCopier", b"T1", rng.choice([0, 0, 1])))
         ops.append(op("S", "expectNCalls", rng.choice([1, 1, 2]), f) if rng.random() < 0.3 else op("S", "expectOneCall", f))
         chainE, chainA = [], []
         for _k in range(rng.randrange(1, 4)):
@@ -239,6 +250,146 @@ def fam_outputs(rng, out, tier):
         if rng.random() < 0.3:
             ops += [M(sc), op("S", "actualCall", f)] + chainA
         ops += [M(sc), op("S", "checkExpectations")]
+        out.append(join(ops))
+
+
+# ---- several custom types, functions drawn from the pool with sharing
+CTYPES = [b"T1", b"T2", b"T3"]
+OBJ_A = bytes([1, 2, 3, 4, 5, 6, 7, 8])
+OBJ_SAME_HEAD = bytes([1, 2, 3, 4, 9, 9, 9, 9])      # equality 0 (first half): equal to A; equality 1 (second half): different
+OBJ_SAME_TAIL = bytes([1, 2, 3, 5, 5, 6, 7, 8])      # equality 0: different; equality 1: equal
+OBJ_OTHER = bytes([10, 11, 12, 13, 14, 15, 16, 17])  # different for both
+DEVS = [OBJ_SAME_HEAD, OBJ_SAME_TAIL, OBJ_OTHER]
+N_EQ, N_STR, N_COPY = 2, 3, 2
+
+
+def install_ops(assign, copiers_last=False):
+    """assign: [(type, eq, str, copier|None)] in install order"""
+    ops, late = [], []
+    for (ty, e, st, cp) in assign:
+        if e is not None:
+            ops.append(op("S", "installComparator", ty, e, st))
+        if cp is not None:
+            (late if copiers_last else ops).append(op("S", "installCopier", ty, cp))
+    return ops + late
+
+
+def custom_call(rng, sc, f, assign, dev_type, dev_obj, drop=None, outputs=True, second_expectation=False, wrong_type=None):
+    """one expectation (or two) of f with an input parameter per installed type (+ an output parameter per type that has a copier) and
+    one actual call: the parameter of dev_type carries dev_obj instead of OBJ_A; `drop` = type whose parameter the actual call lacks;
+    wrong_type = (type, other) passes the parameter of `type` under the type name `other`"""
+    tys = []
+    for a in assign:
+        if a[0] not in [t[0] for t in tys]:
+            tys.append(a)
+    ops = [M(sc), op("S", "expectOneCall", f)]
+    chainA = []
+    for i, (ty, e, st, cp) in enumerate(tys):
+        pn = b"p" + ty[1:]
+        ops.append(op("E", "withParameterOfType", ty, pn, OBJ_A))
+        if ty != drop:
+            aty = wrong_type[1] if (wrong_type and wrong_type[0] == ty) else ty
+            chainA.append(op("A", "withParameterOfType", aty, pn, dev_obj if ty == dev_type else OBJ_A))
+        if outputs and cp is not None:
+            qn = b"q" + ty[1:]
+            ops.append(op("E", "withOutputParameterOfTypeReturning", ty, qn, bytes([0x10 * (i + 1) + k for k in range(8)])))
+            chainA.append(op("A", "withOutputParameterOfType", ty, qn))
+    if second_expectation:
+        ops += [M(sc), op("S", "expectOneCall", f)]
+        for (ty, e, st, cp) in tys:
+            ops.append(op("E", "withParameterOfType", ty, b"p" + ty[1:], OBJ_OTHER))
+    if rng.random() < 0.2:
+        rng.shuffle(chainA)
+    ops += [M(sc), op("S", "actualCall", f)] + chainA
+    ops += [M(sc), op("S", "checkExpectations")]
+    return ops
+
+
+def fam_custom(rng, out, tier):
+    """custom-type comparators / copiers confused with one another: shared equality with different texts, shared text with different
+    equalities, the same functions under two names, shared copier, install order, re-installation, removeAll + other assignment"""
+    pairs = [(e, st) for e in range(N_EQ) for st in range(N_STR)]
+    # (a) every pair of assignments for two types, both install orders; the call deviates in the type installed LAST by an object
+    #     both equalities reject (the failure text prints the value with that type's to-string) -- always in the quick tier
+    for (e1, s1) in pairs:
+        for (e2, s2) in pairs:
+            for order in (0, 1):
+                assign = [(b"T1", e1, s1, None), (b"T2", e2, s2, None)]
+                if order:
+                    assign.reverse()
+                out.append(join([M(None)] + install_ops(assign) + custom_call(rng, None, b"f0", assign, assign[1][0], OBJ_OTHER, outputs=False)))
+    # (b) every pair of copier assignments, both orders, same or different comparators
+    for c1 in range(N_COPY):
+        for c2 in range(N_COPY):
+            for order in (0, 1):
+                (e1, s1), (e2, s2) = rng.choice(pairs), rng.choice(pairs)
+                assign = [(b"T1", e1, s1, c1), (b"T2", e2, s2, c2)]
+                if order:
+                    assign.reverse()
+                out.append(join([M(None)] + install_ops(assign, copiers_last=rng.random() < 0.5) + custom_call(rng, None, b"f1", assign, None, None)))
+    # (c) random: 2..3 types, sharing pattern chosen first
+    n = 260 if tier == "quick" else 6000
+    for _ in range(n):
+        k = rng.choice([2, 2, 3])
+        tys = rng.sample(CTYPES, k)
+        pat = rng.randrange(6)
+        e0, s0, c0 = rng.randrange(N_EQ), rng.randrange(N_STR), rng.randrange(N_COPY)
+        assign = []
+        for i, ty in enumerate(tys):
+            if pat == 0:      # one generic equality, a text per type
+                e, st = e0, (s0 + i) % N_STR
+            elif pat == 1:    # one text, an equality per type
+                e, st = (e0 + i) % N_EQ, s0
+            elif pat == 2:    # the same functions under several names
+                e, st = e0, s0
+            else:
+                e, st = rng.randrange(N_EQ), rng.randrange(N_STR)
+            cp = rng.choice([None, c0, c0, (c0 + i) % N_COPY])
+            assign.append((ty, e, st, cp))
+        removed_type = None
+        sc_i = rng.choice([None, None, None, b"s1"])      # the support the functions are installed through
+        sc = sc_i if rng.random() < 0.8 else rng.choice(SCOPES)
+        pre = [M(sc_i)]
+        r = rng.random()
+        if r < 0.15:
+            # an earlier, different assignment, then removeAll (nothing holds a custom value yet), then the real one
+            first = [(ty, rng.randrange(N_EQ), rng.randrange(N_STR), rng.choice([None, rng.randrange(N_COPY)])) for ty in rng.sample(CTYPES, rng.choice([1, 2, 3]))]
+            pre += install_ops(first) + [op("S", "removeAllComparatorsAndCopiers")]
+            pre += install_ops(assign, copiers_last=rng.random() < 0.3)
+            gone = [a[0] for a in first if a[0] not in [b[0] for b in assign]]
+            if gone and rng.random() < 0.6:
+                removed_type = (gone[0], None, None, None)      # the call also has a parameter of a type that is not installed any more
+        elif r < 0.35:
+            # a type installed twice: the later functions count
+            ty, e, st, cp = rng.choice(assign)
+            again = (ty, rng.randrange(N_EQ), rng.randrange(N_STR), rng.choice([None, rng.randrange(N_COPY)]))
+            if rng.random() < 0.5:
+                pre += install_ops([again] + assign)
+            else:
+                pre += install_ops(assign + [again])
+                assign = [a for a in assign if a[0] != ty] + [(ty, again[1], again[2], again[3] if again[3] is not None else cp)]
+        elif r < 0.45:
+            # comparator for one type only / copier for one type only
+            i = rng.randrange(len(assign))
+            ty, e, st, cp = assign[i]
+            assign[i] = (ty, None, None, cp) if rng.random() < 0.5 else (ty, e, st, None)
+            pre += install_ops([a for a in assign])
+            assign[i] = (ty, 0, 0, assign[i][3])
+        else:
+            pre += install_ops(assign, copiers_last=rng.random() < 0.3)
+        dv = rng.random()
+        dev_type, dev_obj, drop, wrong = None, None, None, None
+        if dv < 0.6:
+            dev_type, dev_obj = rng.choice(assign)[0], rng.choice(DEVS)
+        elif dv < 0.7:
+            drop = rng.choice(assign)[0]
+        elif dv < 0.8:
+            a, b = rng.sample(assign, 2)
+            wrong = (a[0], b[0])
+        ops = pre + custom_call(rng, sc, rng.choice(FUNS), assign + ([removed_type] if removed_type else []), dev_type, dev_obj, drop=drop, outputs=rng.random() < 0.7,
+                                second_expectation=rng.random() < 0.25, wrong_type=wrong)
+        if rng.random() < 0.1:
+            ops += [M(None), op("S", "clear"), op("S", "removeAllComparatorsAndCopiers")]
         out.append(join(ops))
 
 
@@ -369,6 +520,7 @@ def generate(tier, rng):
     fam_types(rng, out, tier)
     fam_data(rng, out, tier)
     fam_outputs(rng, out, tier)
+    fam_custom(rng, out, tier)
     fam_flow(rng, out, tier)
     _count_fields(out)
     return out
@@ -402,6 +554,26 @@ def classify(s):
                      (":S.expectNCalls", "expectNCalls"), ("MemoryBuffer", "memory-buffer"), (":S.clear", "clear")):
         if any(key in h for h in heads):
             labs.append(lab)
+    cmps = [(o[1], o[2], o[3]) for o in ops if o[0] == ":S.installComparator" and len(o) == 4]
+    cps = [(o[1], o[2]) for o in ops if o[0] == ":S.installCopier" and len(o) == 3]
+    if len(set(c[0] for c in cmps)) >= 2:
+        labs.append("custom-types>=2")
+        byty = {}
+        for ty, e, st in cmps:
+            byty[ty] = (e, st)          # the functions installed last for the name
+        fns = list(byty.values())
+        if any(a[0] == b[0] and a[1] != b[1] for i, a in enumerate(fns) for b in fns[i + 1:]):
+            labs.append("shared-equality-own-text")
+        if any(a[0] != b[0] and a[1] == b[1] for i, a in enumerate(fns) for b in fns[i + 1:]):
+            labs.append("shared-text-own-equality")
+        if any(a == b for i, a in enumerate(fns) for b in fns[i + 1:]):
+            labs.append("same-functions-two-names")
+    if len(set(c[0] for c in cps)) >= 2:
+        labs.append("shared-copier" if len(set(c[1] for c in cps)) == 1 else "copier-per-type")
+    if len(cmps) > len(set(c[0] for c in cmps)):
+        labs.append("type-installed-twice")
+    if ":S.removeAllComparatorsAndCopiers" in heads and any(h.startswith(":S.install") for h in heads[heads.index(":S.removeAllComparatorsAndCopiers"):]):
+        labs.append("install-after-removeAll")
     if any(h.startswith(":S.") and ("ReturnValue" in h or "OrDefault" in h or h == ":S.returnValue") for h in heads):
         labs.append("reader-via-support-table")
     if any(h.startswith(":A.") and ("ReturnValue" in h or "OrDefault" in h or h == ":A.returnValue") for h in heads):
@@ -452,7 +624,38 @@ def _vals(h):
         return []
 
 
+def _wellformed(ops):
+    """the candidate is still a scenario a C user can write: a support is selected first, :E ops follow an expectation, :A ops an
+    actual call (no clear in between), install ops carry their function indices"""
+    if not ops or ops[0][0] != ":M":
+        return False
+    e = a = False
+    for o in ops:
+        h = o[0]
+        if h in (":S.expectOneCall", ":S.expectNCalls"):
+            e = True
+        elif h == ":S.actualCall":
+            a = True
+        elif h == ":S.clear":
+            e = a = False
+        elif h.startswith(":E.") and not e:
+            return False
+        elif h.startswith(":A.") and not a:
+            return False
+        elif h == ":S.installComparator" and (len(o) != 4 or o[2] not in ("0", "1") or o[3] not in ("0", "1", "2")):
+            return False
+        elif h == ":S.installCopier" and (len(o) != 3 or o[2] not in ("0", "1")):
+            return False
+    return True
+
+
 def shrink(s):
+    for c in _shrink(s):
+        if _wellformed(split_ops(c)):
+            yield c
+
+
+def _shrink(s):
     ops = split_ops(s)
     # drop one op (never the leading support selection), then a selection + op pair
     for i in range(1, len(ops)):
